@@ -17,7 +17,7 @@ def run(ck):
         if i == 0:
             a.append("--short")
         jobs.append(dict(exe=exe, args=a, label="enum%d" % i, timeout=3600))
-    ncases = int((400000 if thorough else 30000) * ck.scale)
+    ncases = int((4000000 if thorough else 30000) * ck.scale)
     for i in range(8):
         jobs.append(dict(exe=exe, args=["--mode", "strings", "--cases", ncases, "--seed", sa.subseed(ck, i)], label="strings%d" % i))
     # same oracles under ASan+UBSan on a sample (out-of-range reads by the decoders / filters)
